@@ -559,7 +559,7 @@ func observe(u *types.Universe, li *lightInfo, sweep bool, dir string) (*inputDa
 		data.Universe = append(data.Universe, nd)
 		imps := observeImports(u, lp)
 		obs.Imports = append(obs.Imports, imps)
-		detail := sweep || (lp.Module != nil && lp.Module.Main)
+		detail := sweep || (lp.Module != nil && (lp.Module.Main || lp.Module.Replace != nil))
 		if sweep {
 			sw.Packages++
 			sweepImports(sw, nd, imps)
